@@ -158,7 +158,7 @@ theorem checkAssertion_scoped {cfg : Cfg} {env : Env} {s : Scoped} {cf : String}
       (ScData.mk none (some (s.now + s.life)) (some s.dest) (some s.irt) s.address false) h.addrOk
     unfold getSubject
     simp [Scoped.assertion, hatt, confirmLoop, bearerConfirmed, optExpired, optPremature, onOrAfterOk,
-      laterThan, hcf, h.destNonempty, recipientOk, hm, e1]
+      laterThan, hcf, h.destNonempty, recipientOk, hm, e1, subjectId]
   have hauthn' : authnStatementOk cfg env { ({ cameFrom := some cf } : St) with hasAssertion := true } s.assertion =
       .ok { cameFrom := some cf, hasAssertion := true,
             sessionNooa := match s.session.sessionNooa with | some t => if t != 0 then t else 0 | none => 0 } := hauthn
@@ -533,5 +533,11 @@ theorem demandedAlg_all (arg cfg : Option String) (dflt : String) :
       | none => simp [truthy, hs]
       | some t => by_cases ht : t = "" <;> simp [truthy, orElse, hs, ht]
     · simp [truthy, orElse, hs]
+
+/-- `toSp` does not look into attributes or advice: the SP model sees a PEFIM Response as `create`'s. -/
+theorem toSp_pefimShape (empty : W) (d : Defaults) (cfg : Idp.Cfg) (a : Args W) (r : Issued W) (trusts : Bool) :
+    toSp trusts (pefimShape empty d cfg a r) = toSp trusts r := by
+  simp [toSp, pefimShape, toSpAssertion, List.map_map, Function.comp_def]
+
 
 end C09P
